@@ -415,6 +415,42 @@ def rule_OD6(rep, prog):
         rep.unknown(rid, "no push of apply helpers found")
 
 
+def rule_MP7(rep, prog):
+    rid = rep.rule("C10-MP7", "dispatch_apply on a custom queue gives back every helper width it reserved on the way down: once a level of the target chain grants fewer slots "
+                   "than asked for (requested > granted), every way on from there - continuing with the granted width, or falling back to the serial loop when "
+                   "nothing was granted - first relinquishes the surplus on the levels above; phantom non-barrier items left behind stall every later barrier", floor=1)
+    fn = prog.fn("_dispatch_apply_redirect")
+    rep.saw(fn)
+    res_ = calls_named(fn, "_dispatch_queue_try_reserve_apply_width")
+    rel = calls_named(fn, "_dispatch_queue_relinquish_width")
+    if not res_ or not rel:
+        rep.unknown(rid, "_dispatch_apply_redirect: reservation / relinquish not found")
+        return
+    n = 0
+    for r in res_:
+        for t in fn.all_insts():
+            if t.op != "icmp" or t.d["pred"] not in ("sgt", "ugt", "slt", "ult") or ("i", r.id) not in (tuple(t.ops[0][:2]), tuple(t.ops[1][:2])):
+                continue
+            br = t.block.term
+            if br.op != "br" or not br.ops or tuple(br.ops[0][:2]) != ("i", t.id):
+                continue
+            granted_is_rhs = tuple(t.ops[1][:2]) == ("i", r.id)
+            short_true = (t.d["pred"] in ("sgt", "ugt")) == granted_is_rhs      # branch true <=> requested > granted
+            tgt = fn.blocks[br.d["succs"][0 if short_true else 1]]
+            n += 1
+            class _S: pass
+            s0 = _S(); s0.block = tgt; s0.idx = -1; s0.loc = t.loc
+            first_rel = [c for c in rel if fn.block_dominates(tgt.id, c.block.id)]
+            leaks = [x for x in paths.walk(fn, s0, lambda i: i.op == "call" and i.callee in ("_dispatch_apply_serial", "_dispatch_apply_f"), avoid=lambda i: i in first_rel)
+                     if x[0] in ("hit", "exit")]
+            rep.require(rid, not leaks, t.loc, fn.name, "surplus-width-not-relinquished",
+                        "_dispatch_apply_redirect, after a level granted less width than requested, can go on (%s) without relinquishing the surplus reserved on the levels "
+                        "above: each such apply leaves phantom non-barrier items on the upper queue and a later barrier on it waits for ever"
+                        % (leaks[0][1].callee if leaks and leaks[0][0] == "hit" else "return"), sample={"test": t.loc})
+    if n < 1:
+        rep.unknown(rid, "_dispatch_apply_redirect: the requested > granted test was not found")
+
+
 def run(rep, tier="quick", srcdir=None, only=None):
     prog, units = load(UNITS, tier, srcdir)
     rep.units = units
@@ -431,6 +467,8 @@ def run(rep, tier="quick", srcdir=None, only=None):
         rule_AI5(rep, prog)
     if want("C10-OD6"):
         rule_OD6(rep, prog)
+    if want("C10-MP7"):
+        rule_MP7(rep, prog)
     if want("C05-WR3") or want("C05-OD2"):
         # dispatch_apply returns only after every invocation finished: the caller's wait on da_event (a thread event) re-validates the word after every
         # wake-up, and an apply submitted through dispatch_sync_f is run exactly once - by the caller, or remotely with dsc_func cleared (shared with C05)
